@@ -54,3 +54,19 @@ const (
 	VerifC30PayloadMax = DefaultPacketPayloadMax
 	VerifC30BufferSize = DefaultPacketBufferSize
 )
+
+// VerifC30RelayAppend does to a (received) packet what PeerToPeer.sendToFriends does before
+// relaying it: bump the hint, add the new ids' length to the announced length through
+// newPacketExtendInfo, re-serialise the footer, append the ids to the extension.
+func VerifC30RelayAppend(pkt *Packet, ids []byte) {
+	ext := ids
+	pkt.extendInfo = newPacketExtendInfo(pkt.extendInfo.hint()+1, pkt.extendInfo.len()+len(ext))
+	if len(pkt.ext) > 0 {
+		ext = append(pkt.ext, ext...)
+	}
+	pkt.footerToBytes(true)
+	pkt.ext = ext[:]
+}
+
+// VerifC30AnnouncedExtLen: the extension length stored in the footer field.
+func VerifC30AnnouncedExtLen(pkt *Packet) int { return pkt.extendInfo.len() }
